@@ -36,7 +36,7 @@ RULE = ("random DAGs of 1..6 singleton causaloids (relabelled so that edges do n
 
 
 def main():
-    run_property("C01", PROPS, gen_cases, CHECKS, RULE, check_entry="c01_check_entry")
+    run_property("C01", PROPS, gen_cases, CHECKS, RULE, check_entry="c01_check_entry", cross=conc_phase)
 
 
 replay = mk_replay("C01", CHECKS, check_entry="c01_check_entry")
